@@ -43,6 +43,7 @@ import Proofs.FitNorm
 import Proofs.JoinSuccess
 import Proofs.Placement
 import Proofs.DelAround
+import Proofs.InsAround
 import Props.C01
 namespace PM.C11
 open PM
@@ -2910,6 +2911,126 @@ example :
     pairAligned doc2 3 = true ∧ pairAligned doc2 8 = true ∧
     (match replaceStep S doc2 3 8 Slice.empty with
      | .ok (some (.replaceAround 3 10 8 9 _ 0 _)) => true
+     | _ => false) = true := by
+  decide +kernel
+
+/-! ### the direct fit: content the node `from` is in accepts as it stands (typing over a selection across blocks)
+
+`directFitB S doc f slice` (PM/DeleteGuards.lean; driver op `directApplies`): the slice is closed and, from
+`from.parent.content_match_at(from.index_after())`, `match_type` succeeds over every node of its content.  Then the loop
+of `Fitter.fit` runs once — `find_fittable` answers the innermost frontier entry at once (pass 1, slice depth 0, the top
+frontier depth), `place_nodes` takes every node (marks the parent does not allow removed, adjacent text merged by
+`Fragment.from_array`) — and `must_move_inline` / `close` go on with that content at the innermost level of `from`
+(Proofs/InsDirect.lean, Proofs/InsAround.lean).  Both answers apply: the `ReplaceStep` whose slice holds the placed
+nodes in front of the fillers, and the `ReplaceAroundStep` with `insert` = the size of the placed nodes (`insert_into`
+steps over them and appends the moved inline content).  The slice's nodes valid, its content in normal form and without
+a lone high surrogate (as for the document). -/
+
+/-- **`replace_applies_direct`** — `replace(f, t, slice)` (`insert`, `replace_with`, typing) with a closed slice that the
+    node `from` is in accepts as it stands behind `from`: every step `replace_step` emits applies -/
+theorem replace_applies_direct (S : Schema) (hdet : detB S = true) (hfill : S.fillersOKB = true)
+    (hleaf : PM.FromDom.leafOkB S = true) (hcl : S.closableB = true) (hts : textStableC S = true)
+    (hta : textAbsorbB S = true) (hjc : joinCompatB S = true) (hro : reopenOKB S = true)
+    (hiu : inlineUniformB S = true) (doc : Node) (f t : Nat) (sl : Slice)
+    (hv : C01.Valid S doc) (hdoc : C01.IsElem doc) (hn : fnorm doc.kids = true) (hattrs : S.nodeAttrsOK doc = true)
+    (hhc : highClosedKids doc.kids = true) (hft : f ≤ t)
+    (hpf : pairAligned doc f = true) (hpt : pairAligned doc t = true)
+    (hdir : directFitB S doc f sl = true) (hslv : sl.closedValid S = true) (hsn : fnorm sl.content = true)
+    (hshc : highClosedKids sl.content = true) (st : Step)
+    (h : replaceStep S doc f t sl = .ok (some st)) : ∃ doc', S.apply st doc = .ok doc' := by
+  cases doc with
+  | text s m => simp [C01.IsElem, Node.isLeaf] at hdoc
+  | leaf ty a m => simp [C01.IsElem, Node.isLeaf] at hdoc
+  | elem ty0 a0 m0 K =>
+    cases hrf : (Node.elem ty0 a0 m0 K).resolve f with
+    | none => simp [directFitB, hrf] at hdir
+    | some rf =>
+      cases hrt : (Node.elem ty0 a0 m0 K).resolve t with
+      | none =>
+        unfold replaceStep at h
+        split at h
+        · simp [pure, Except.pure] at h
+        · simp [hrf, hrt, throw, throwThe, MonadExceptOf.throw] at h
+      | some rt =>
+        have hpf' : rf.pairOk = true := by simpa [pairAligned, hrf] using hpf
+        have hpt' : rt.pairOk = true := by simpa [pairAligned, hrt] using hpt
+        simp only [directFitB, hrf, Bool.and_eq_true, beq_iff_eq] at hdir
+        obtain ⟨⟨hos, hoe⟩, hacc⟩ := hdir
+        cases hq : S.contentMatchAt (S.tyOf rf.parent) rf.parent.kids (rf.indexAfter rf.depth) with
+        | none => rw [hq] at hacc; simp at hacc
+        | some qD =>
+          rw [hq] at hacc
+          simp only at hacc
+          cases hr : (S.dfa (S.tyOf rf.parent)).run qD (S.types sl.content) with
+          | none => rw [hr] at hacc; simp at hacc
+          | some q' =>
+            exact replaceStep_direct_applies S (detS_of_detB S hdet) (PM.FromDom.leafOk_of_B S hleaf)
+              (fillersOK_of_B S hfill) (closable_of_B S hcl) (textStableP_of_C S hts) (textAbsorb_of_B S hta) hjc hro
+              hiu ty0 a0 m0 K f t hv hn hattrs hhc hft rf rt hrf hrt hpf' hpt' sl hos hoe hsn hslv hshc qD q' hq hr
+              st h
+
+/-- **`insertInline_never_raises_direct_partial`** — typing / inserting inline leaves over a range `[f, t)` whose start
+    lies in a node that accepts them as they stand (`directFitB`: typing into a textblock, over a selection inside it or
+    across blocks): `replace_step` returns `None` or a step, the step applies, the returned document is valid,
+    everything outside `[f, t)` is kept and the text between is an in-order subsequence of the typed text.  No refusal
+    branch, no hypothesis about the step.
+    FULL STATEMENT (`insertInline_never_raises`): the same without `hdir`.  Missing: the runs of `Fitter.fit` in which
+    `find_fittable` does not answer the innermost frontier entry for the whole content — the Fitter closes frontier
+    nodes first (typing at a place between blocks: the text goes into a wrapper paragraph `find_wrapping` supplies) or
+    `place_nodes` takes a prefix only; for those `insertInline_total_valid_partial` keeps its refusal branch. -/
+theorem insertInline_never_raises_direct_partial (S : Schema) (hdet : detB S = true) (hfill : S.fillersOKB = true)
+    (hwrap : S.wrapOKB = true) (hlab : S.labelsOKB = true) (hleaf : PM.FromDom.leafOkB S = true)
+    (hts : textStableC S = true) (hcl : S.closableB = true) (hst : PM.FromDom.textStableB S = true)
+    (hta : textAbsorbB S = true) (hjc : joinCompatB S = true) (hro : reopenOKB S = true)
+    (hiu : inlineUniformB S = true) (doc : Node) (f t : Nat) (sl : Slice)
+    (hsl : sl.inlineLeaves S = true) (hslv : sl.closedValid S = true) (hsn : fnorm sl.content = true)
+    (hshc : highClosedKids sl.content = true)
+    (hv : C01.Valid S doc) (hdoc : C01.IsElem doc) (hn : fnorm doc.kids = true) (hattrs : S.nodeAttrsOK doc = true)
+    (hhc : highClosedKids doc.kids = true) (htop : S.isTextblockO (S.tyOf doc) = false)
+    (hft : f ≤ t) (ht : t ≤ fsize doc.kids)
+    (hpf : pairAligned doc f = true) (hpt : pairAligned doc t = true) (hdir : directFitB S doc f sl = true) :
+    replaceStep S doc f t sl = .ok none ∨
+    ∃ st doc', replaceStep S doc f t sl = .ok (some st) ∧ S.apply st doc = .ok doc' ∧ C01.Valid S doc' ∧
+      Kept (ftoks doc.kids) (ftoks doc'.kids) f t (textUnits (sliceToks' sl)) := by
+  obtain ⟨r, hr⟩ := insertInline_total S hdet hfill hwrap doc f t sl hsl hv hattrs htop hft ht
+  cases r with
+  | none => exact .inl hr
+  | some st =>
+    obtain ⟨doc', ha⟩ := replace_applies_direct S hdet hfill hleaf hcl hts hta hjc hro hiu doc f t sl hv hdoc hn hattrs hhc
+      hft hpf hpt hdir hslv hsn hshc st hr
+    exact .inr ⟨st, doc', hr, ha,
+      insertInline_valid S hdet hfill hwrap hlab hleaf hts hcl hst doc doc' f t sl hsl hslv hsn hv hn hattrs hft st hr ha⟩
+
+/-- the hypotheses of `replace_applies_direct` are satisfiable on runs that reach the Fitter, with both answers: typing
+    `"x"` over `[2, 6)` in `doc(p("ab"), p("cd"))` is no trivial fit and ends in a replace step; over `[3, 8)` in
+    `doc(bq(p("ab")), p("cd"))` it ends in the replace-around step with `insert = 1` that moves `"d"` behind the typed
+    `"x"` in the quoted paragraph -/
+example :
+    let nt (name : String) (isText inl : Bool) (dfa : Array DfaState) : NodeType :=
+      { name := name, isText := isText, isInline := isText, isLeaf := isText, isAtom := isText,
+        inlineContent := inl, isolating := false, defining := false, code := false,
+        dfa := dfa, markSet := none, attrs := [] }
+    let S : Schema := { nodes := #[nt "doc" false false #[⟨false, [(1, 1), (2, 1)]⟩, ⟨true, [(1, 1), (2, 1)]⟩],
+                                   nt "paragraph" false true #[⟨true, [(3, 0)]⟩],
+                                   nt "blockquote" false false #[⟨false, [(1, 1), (2, 1)]⟩, ⟨true, [(1, 1), (2, 1)]⟩],
+                                   nt "text" true false #[⟨true, []⟩]],
+                        marks := #[], top := 0, textTy := 3 }
+    let doc1 := Node.elem 0 [] [] [.elem 1 [] [] [.text [97, 98] []], .elem 1 [] [] [.text [99, 100] []]]
+    let doc2 := Node.elem 0 [] [] [.elem 2 [] [] [.elem 1 [] [] [.text [97, 98] []]], .elem 1 [] [] [.text [99, 100] []]]
+    let sl : Slice := ⟨[.text [120] []], 0, 0⟩
+    detB S = true ∧ S.fillersOKB = true ∧ PM.FromDom.leafOkB S = true ∧ S.closableB = true ∧ textStableC S = true ∧
+    textAbsorbB S = true ∧ joinCompatB S = true ∧ reopenOKB S = true ∧ inlineUniformB S = true ∧
+    sl.closedValid S = true ∧ fnorm sl.content = true ∧ highClosedKids sl.content = true ∧
+    S.checkNode doc1 = true ∧ fnorm doc1.kids = true ∧ S.nodeAttrsOK doc1 = true ∧ highClosedKids doc1.kids = true ∧
+    pairAligned doc1 2 = true ∧ pairAligned doc1 6 = true ∧ directFitB S doc1 2 sl = true ∧
+    fitsTriviallyO S doc1 2 6 sl = some false ∧
+    (match replaceStep S doc1 2 6 sl with
+     | .ok (some (.replace 2 6 sl' _)) => sl' == sl
+     | _ => false) = true ∧
+    S.checkNode doc2 = true ∧ fnorm doc2.kids = true ∧ S.nodeAttrsOK doc2 = true ∧ highClosedKids doc2.kids = true ∧
+    pairAligned doc2 3 = true ∧ pairAligned doc2 8 = true ∧ directFitB S doc2 3 sl = true ∧
+    (match replaceStep S doc2 3 8 sl with
+     | .ok (some (.replaceAround 3 10 8 9 _ 1 _)) => true
      | _ => false) = true := by
   decide +kernel
 
